@@ -141,6 +141,12 @@ def run_and_check(rec, F, cnt, prefix='C04', check_temp=True):
                 for (ei, node), v0 in dirichlet0.items():
                     if x_new[ei, node] != v0:
                         F.add(prefix + '.dirichlet', f'call {ci} step {j}: fixed-composition node {node} of element {els[ei]} is {x_new[ei, node]!r}, was {v0!r} after the first setup', when='step')
+            # --- a flux condition can pump the solutes past sum(x) = 1 (the model validates this only at the next setup):
+            #     from then on the state is outside the admissible domain and the run is no longer judged
+            if np.any(np.sum(x_new, axis=0) >= 1 - minC):
+                cnt['left_admissible_domain'] = cnt.get('left_admissible_domain', 0) + 1
+                capped = True
+                break
             # --- bounds
             if np.any(x_new < minC) or np.any(x_new > 1 - minC) or not np.all(np.isfinite(x_new)):
                 F.add(prefix + '.bounds', f'call {ci} step {j}: composition outside [minComposition, 1-minComposition]: min {np.min(x_new)!r} max {np.max(x_new)!r}', where='step')
